@@ -260,6 +260,17 @@ def simple(ctx, db):
                     ctx.violation("simple:strings-differ-from-the-registered-ones", dict(case, got=list(got), expected=list(want)), replay=case)
                 if u not in repr(s) or ("[%s]" % u) not in str(s) or u not in repr(a) or ("[%s]" % u) not in str(a):
                     ctx.violation("simple:repr-or-str-does-not-show-the-unit", dict(case, repr=repr(s), str=str(s), array_repr=repr(a), array_str=str(a)), replay=case)
+                # ... whatever the amount: zero, negative, huge, tiny, not a number, infinite (formatting treats some of these apart)
+                for label, x in (("nan", float("nan")), ("inf", float("inf")), ("-inf", float("-inf")), ("0", 0.0), ("-0", -0.0), ("huge", 1e300), ("tiny", 5e-324), ("negative", -2.5), ("int", 7)):
+                    ctx.ev()
+                    try:
+                        sx, ax = Scalar(q, x), Array(q, [x, 1.0])
+                        shown = (repr(sx), str(sx), sx.GetFormatted(), repr(ax), str(ax), "%s" % (sx,))
+                    except Exception as e:
+                        ctx.violation("simple:formatting-raised:%s:%s" % (label, type(e).__name__), dict(case, value=label, error=str(e)[:160]), replay=case)
+                        continue
+                    if u not in shown[0] or any(("[%s]" % u) not in t for t in (shown[1], shown[2], shown[4], shown[5])) or u not in shown[3]:
+                        ctx.violation("simple:repr-or-str-does-not-show-the-unit:%s" % label, dict(case, value=label, shown=list(shown)), replay=case)
 
 
 def run(ctx):
